@@ -210,6 +210,7 @@ func checkC16(c *Check) {
 	}
 	runGenEngines(c, genOpts{entries: entries, order: true, guard: true, deref: true, rec: true})
 	c16DepthIsMax(c)
+	c16RecordOnAllPaths(c)
 	// delta path: sorted by name (information: the modify path must sort its table list)
 	sorted := false
 	for _, f := range methodsOfType(p, "pkg/database", "ScriptView") {
@@ -375,5 +376,66 @@ func c16DepthIsMax(c *Check) {
 	c.Counts["depth_updates"] = n
 	if n == 0 {
 		c.Undecidedf("DEPTH-IS-MAX", "pkg/database", "-", "no depth computation (completed depth of a referenced table + 1) found: unresolved anchor")
+	}
+}
+
+// c16RecordOnAllPaths: the column writers record the SQL type of every column
+// they handle in the map handed to them (foreign-key columns later read the
+// type of the column they refer to from it). In every pkg/database function
+// that updates a map[string]string parameter, each path from entry to a return
+// passes such an update: an early return that skips it leaves later columns
+// without a type.
+func c16RecordOnAllPaths(c *Check) {
+	p := c.P
+	n := 0
+	for _, f := range p.RepoFuncs() {
+		if fnPkgPath(f) != repoMod+"/pkg/database" || f.Parent() != nil || strings.HasSuffix(p.fnFile(f), "_test.go") || len(f.Blocks) == 0 {
+			continue
+		}
+		// a column writer: it is handed the column's type
+		handlesColumn := false
+		for _, prm := range f.Params {
+			if typeIs(prm.Type(), syslPkg, "Type") {
+				handlesColumn = true
+			}
+		}
+		if !handlesColumn {
+			continue
+		}
+		for _, prm := range f.Params {
+			mt, ok := prm.Type().Underlying().(*types.Map)
+			if !ok || !types.Identical(mt.Key(), types.Typ[types.String]) || !types.Identical(mt.Elem(), types.Typ[types.String]) {
+				continue
+			}
+			isUpd := func(i ssa.Instruction) bool {
+				mu, ok := i.(*ssa.MapUpdate)
+				return ok && unspill(mu.Map) == ssa.Value(prm)
+			}
+			has := false
+			eachInstr(f, func(_ *ssa.BasicBlock, i ssa.Instruction) {
+				if isUpd(i) {
+					has = true
+				}
+			})
+			if !has {
+				continue
+			}
+			n++
+			key := fmt.Sprintf("%s|%s recorded on every path", fnName(f), prm.Name())
+			entry := f.Blocks[0].Instrs[0]
+			if isUpd(entry) {
+				c.Okf("RECORD-ON-ALL-PATHS", key, p.pos(f.Pos()), "recorded first thing")
+				continue
+			}
+			if ret, bad := reachAvoiding(entry, isReturn, isUpd); bad {
+				c.Flagf("RECORD-ON-ALL-PATHS", key, p.pos(ret.Pos()), "the return at %s is reachable without recording the column in %s: a foreign-key column that refers to this column later finds no type for it", p.pos(ret.Pos()), prm.Name())
+			} else {
+				c.Okf("RECORD-ON-ALL-PATHS", key, p.pos(f.Pos()), "every path to a return records the column in %s", prm.Name())
+			}
+		}
+	}
+	c.Counts["column_writers_with_type_map"] = n
+	if n == 0 {
+		c.Undecidedf("RECORD-ON-ALL-PATHS", "pkg/database", "-", "no column writer that records into a map[string]string parameter found: unresolved anchor")
 	}
 }
